@@ -230,6 +230,97 @@ def pipeline_probe(res):
     res.coverage['traces_validated_against_impl'] = res.coverage.get('traces_validated_against_impl', 0) + len(progs)
 
 
+def kernel_sweep(res, mod, tier):
+    """M01d/M01k: the other kernels engine M can execute (they are the value targets of C12 / C13 / C04) are run here for their *execution*
+    obligations only: no reachable panic / failed overflow or bounds assert / unwrap on None / slice out of range, every loop
+    iteration advances (unwinding assertion), and the scanners advance the cursor.  A finding is replayed through a template that
+    routes the witness to the kernel (string literal in a binding, character reference in static text, attribute name, import
+    path); only a panic / abort / hang of the real build is a violation."""
+    from checks import c12, c13, c04
+    sink = Result('C01', 'other')
+    cands = []      # (harness, class, what, [templates or requests])
+    t0 = time.time()
+
+    def lit_templates(s_):
+        if not s_:
+            return []
+        out = [s_]
+        if len(s_) >= 1 and (len(s_) < 2 or s_[-1] != s_[0]):
+            out.append(s_ + s_[0])
+        return ['<v a="x">{{ %s }}</v>' % x for x in out] + ["<v a='{{ %s }}'/>" % x for x in out if "'" not in x]
+    try:
+        _, pend = c12.m12b(sink, mod, tier)
+        for cls, what, s_, _k in pend:
+            if cls.startswith('exec:'):
+                cands.append(('M01d-parse_lit_str', cls[5:], what + ' on %r' % (s_,), lit_templates(s_)))
+    except Exception as e:     # noqa: the kernel is outside the executor on this tree: C12 reports that; nothing is claimed here
+        res.inconc('kernel sweep: parse_lit_str not executed (%s: %s)' % (type(e).__name__, str(e)[:120]))
+    try:
+        _, pend = c12.m12d(sink, mod, tier)
+        for cls, what, s_, _k in pend:
+            if cls.startswith('exec:') or cls == 'progress':
+                ts = ['<v>%s</v>' % s_, '<v a="%s"/>' % s_.replace('"', ''), '<v>x%s;y</v>' % s_] if s_ else []
+                cands.append(('M01d-parse_next_entity', cls.replace('exec:', ''), what, ts))
+    except Exception as e:
+        res.inconc('kernel sweep: parse_next_entity not executed (%s: %s)' % (type(e).__name__, str(e)[:120]))
+    try:
+        pend = []
+        nmax = 4
+        c13.run_fn(mod, sink, 'resolve', 2, [(a, b) for a in range(1, nmax) for b in range(1, nmax) if a + b <= nmax + 1], pend)
+        c13.run_fn(mod, sink, 'normalize', 1, [(k,) for k in range(1, nmax + 1)], pend)
+        del c13.XCHECK[:]
+        for name, cls, model, paths in pend:
+            if cls.startswith('exec:') and model is not None:
+                args = c13.concrete(model, paths)
+                reqs = []
+                for b_, r_ in [(args[0], args[-1])] + c13.candidate_pairs()[:60]:
+                    if b_ and not any(ch in b_ + r_ for ch in '"<>&{'):
+                        reqs.append({'files': [[b_, '<import src="%s"/><include src="%s"/><wxs module="m" src="%s"/>' % (r_, r_, r_)]], 'main': b_})
+                cands.append(('M01k-path::' + name, cls[5:], 'path::%s%r: %s' % (name, tuple(args), cls), reqs))
+    except Exception as e:
+        res.inconc('kernel sweep: path::resolve / normalize not executed (%s: %s)' % (type(e).__name__, str(e)[:120]))
+    nfn = len(sink.functions)
+    res.functions.extend(dict(f, role='execution obligations only (no panic / assert / unwinding)') for f in sink.functions)
+    res.solver_time += sink.solver_time
+    nq = sink.queries['total']
+    res.query('unsat' if not cands else 'sat', max(1, nfn))
+    for why in sink.inconclusive:
+        res.inconc('kernel sweep: ' + why)
+    seen = set()
+    for harness, cls, what, items in cands:
+        if (harness, cls) in seen:
+            continue
+        seen.add((harness, cls))
+        hit = None
+        for it in items[:70]:
+            if isinstance(it, dict):
+                common.replay(['get-var-name', '0'])
+                try:
+                    r = subprocess.run([common._replay_bin['dev'], 'tmpl'], input=json.dumps([dict(it, want=['gen_object', 'direct_dependencies'])]),
+                                       stdout=subprocess.PIPE, stderr=subprocess.PIPE, text=True, timeout=10)
+                    o = json.loads(r.stdout)[0] if r.returncode == 0 else {'panic': 'abort %d' % r.returncode}
+                    st = ('panic:' + o['panic']) if 'panic' in o else 'ok'
+                except subprocess.TimeoutExpired:
+                    st = 'hang'
+                desc = json.dumps(it['files'])
+            else:
+                st = replay_template(it)
+                desc = it
+            res.coverage['traces_validated_against_impl'] = res.coverage.get('traces_validated_against_impl', 0) + 1
+            if st != 'ok':
+                hit = (desc, st)
+                break
+        if hit:
+            res.violation({'engine': 'M', 'harness': harness, 'class': cls}, '%s; end to end: %s on %s' % (what, hit[1], hit[0]),
+                          {'template': hit[0]} if not hit[0].startswith('[') else {'files': hit[0]})
+        else:
+            res.inconc('%s: %s - the witness does not make the real build fail' % (harness, what))
+    log('[C01] kernel sweep: %d kernel runs, %d value-side queries ignored, %d execution findings (%.1fs)' % (nfn, nq, len(cands), time.time() - t0))
+    res.coverage['kernel_sweep'] = {'kernels': ['Expression::parse_lit_str', 'StrName::parse_next_entity', 'path::resolve', 'path::normalize'],
+                                    'runs': nfn, 'execution_findings': len(cands)}
+    return nfn
+
+
 def main(tier):
     res = Result('C01', 'other')
     res.engines = ['M (MIR symbolic execution with ParseState contracts)']
@@ -237,6 +328,7 @@ def main(tier):
     mod = Module(common.mir_dump('tc'))
     n1 = m01b(res, mod, tier)
     n2 = m01e(res, mod, tier)
+    n2 += kernel_sweep(res, mod, tier)
     pipeline_probe(res)
     from checks import mixed
     n2 += mixed.run_property(res, mod, 'C01', tier)
@@ -265,6 +357,11 @@ def replay(path):
     if 'input' in rp:
         out = replay_parse_number([rp['input']])[0]
         print(out)
+        return 1 if 'panic' in out else 0
+    if 'files' in rp:
+        r = common.replay(['tmpl'], stdin=json.dumps([{'files': json.loads(rp['files']), 'main': json.loads(rp['files'])[0][0], 'want': ['gen_object', 'direct_dependencies']}]), timeout=20)
+        out = json.loads(r.stdout)[0] if r.returncode == 0 else {'panic': 'abort'}
+        print(out.get('panic', 'ok'))
         return 1 if 'panic' in out else 0
     r = replay_template(rp['template'])
     print(r)
